@@ -299,6 +299,8 @@ func genSub(pr profile, targets, users int) func(t *rapid.T) SubSpec {
 		}
 		if s.Mode == "stream" {
 			s.UpdatesOnly = rapid.IntRange(0, 5).Draw(t, "updonly") == 0
+		} else {
+			s.UpdatesOnly = rapid.IntRange(0, 7).Draw(t, "updonly") == 0
 		}
 		s.User = rapid.IntRange(0, users-1).Draw(t, "user")
 		s.Gated = rapid.IntRange(0, 99).Draw(t, "gated") < pr.gatedPct
